@@ -174,3 +174,16 @@ META["C14"] = M(
          "returned Q, T are judged against the reference matrix: orthonormality (1e-12), first column, T pattern, T = Q^H A Q, "
          "three-term relation, principal angles to a reference Krylov basis, column cap, early stop at a known Krylov dimension "
          "with exact eigenvalues, ascending Ritz pairs; distinct = configuration tuple")
+
+META["C15"] = M(
+    shards={"quick": 16, "thorough": 64}, budget={"quick": 50, "thorough": 800},
+    floors={"quick": {"evals": 3000, "distinct": 300}, "thorough": {"evals": 60000, "distinct": 4000}},
+    required=["shapes", "first-column", "H-upper-hessenberg-nonneg-subdiagonal", "arnoldi-relation", "orthonormal-basis",
+              "padding-is-zero", "beyond-n-equals-n-steps", "full-run-gives-spectrum"],
+    rule="square operators V diag(l) V^-1 (real with conjugate pairs / complex, normal and non-normal, n 1..40 (200 in "
+         "thorough), kappa<=1e2), start vectors generic / in a 1- or few-dimensional invariant subspace (breakdown) / default "
+         "(keyed) / batched, max_iters 1..n+10 and the defaults, tol 1e-12..1e-5, through arnoldi(), Arnoldi()(A) and "
+         "arnoldi_eigs(); Q and H judged for shapes, first column, Hessenberg pattern with non-negative sub-diagonal, the "
+         "Arnoldi relation, orthonormality of the first min(m+1, d) columns to c*eps*kappa/rho_m (rho_m the reference "
+         "minimal residual, judged while >= 1e-8), zero padding beyond n, equality with the n-step run, and arnoldi_eigs with "
+         ">= n steps against the reference spectrum (multiset match); distinct = configuration tuple")
